@@ -546,7 +546,7 @@ def _run_case(case, ctx):
                 d_p = decomp.dense("parafac2", decomp.snapshot(r2["decomp"]))
                 num = float(np.sqrt(sum(ref.frob_sq(a_ - b_) for a_, b_ in zip(d_n, d_p))))
                 den = float(np.sqrt(sum(ref.frob_sq(b_) for b_ in d_p))) + 1e-300
-                if not np.isfinite(num) or num > 0.05 * den + 1e3 * eps * den:
+                if not np.isfinite(num) or num > 0.3 * den + 1e3 * eps * den:
                     viol("parafac2", "scale-carried-by-weights", "nn_modes" if "nn_modes" in opts else "plain", "the normalised run represents other slices than the same run without normalisation "
                          "(relative difference %.3g): the scale taken out of the columns is not in the weights" % (num / den), desc)
                     return
